@@ -38,13 +38,13 @@ PROPS = {
         level_note="Trusted: the reference evaluator and JSON reader in harness/ref, rapid, the Go toolchain. Domain exclusions are exactly those of the property's quantifier and are counted in the evidence.",
     ),
     "C05": dict(
-        pkg="c05", units=[rapid("TestProp", 36000, 150000), rapid("TestPropEmpty", 24000, 100000), rapid("TestPropMerge", 30000, 150000)], assumptions=COMMON_ASSUME,
+        pkg="c05", units=[rapid("TestProp", 36000, 150000), rapid("TestPropEmpty", 24000, 100000), rapid("TestPropMerge", 30000, 150000), fuzz("FuzzOrder", 60)], assumptions=COMMON_ASSUME,
         technique="property-based testing (rapid): ordered, literal-exact comparison with the reference evaluator; order-validity predicate for MergePatch",
         level_text="Generated-input search: Apply outputs are compared member-order- and literal-exactly with the ordered reference result (the model implements the stated order rules), the empty patch must reproduce the input in any spelling, and MergePatch outputs must satisfy the order predicate and carry every number literal. Exploration over generated documents with exotic literals and busy objects; no proof.",
         level_note="Trusted: harness/ref (ordered tree, literal-preserving reader), rapid, Go toolchain. Order among members newly added by MergePatch is unspecified and not asserted.",
     ),
     "C08": dict(
-        pkg="c08", units=[rapid("TestProp", 45000, 200000)], assumptions=COMMON_ASSUME,
+        pkg="c08", units=[rapid("TestProp", 45000, 200000), fuzz("FuzzFail", 60)], assumptions=COMMON_ASSUME,
         technique="property-based testing (rapid): injected inapplicable operations, cause classes from an option-aware reference evaluator checked against errors.Is/As; metamorphic suffix-irrelevance",
         level_text="Generated-input search: each case holds an operation built to be inapplicable at a random position; the option-aware model names the first failing operation and its cause class, and the library must return (nil, err) with errors.Is(ErrTestFailed) / *AccumulatedCopySizeError exactly for the matching causes, ErrMissing for absent members and unreachable parents, and the same error when the suffix is cut off. Inputs come mostly in the encoder's own spelling and partly in other spellings; for those, copy sizes are measured in the outputs of the patch prefixes instead of modelled. Exploration only.",
         level_note="Trusted: harness/ref evaluator incl. its model of AllowMissingPathOnRemove, EnsurePathExistsOnAdd (clear domain only) and copy sizes; when an operation has two independent reasons to fail either classification is accepted.",
@@ -57,19 +57,19 @@ PROPS = {
         level_note="Trusted: harness/ref size model (len of canonical text for the EscapeHTML setting; a copied null counts 0..4 bytes and limits inside that interval are excluded). The measured-size units trust the reference evaluator for where a copied value lands and the library's own prefix outputs for how it is spelled there.",
     ),
     "C13": dict(
-        pkg="c13", units=[rapid("TestProp", 45000, 200000)], assumptions=COMMON_ASSUME,
+        pkg="c13", units=[rapid("TestProp", 45000, 200000), fuzz("FuzzAllowMissing", 60)], assumptions=COMMON_ASSUME,
         technique="property-based testing (rapid): metamorphic relation (option on, P) == (option off, P minus skipped removes) with the skipped set computed by the reference evaluator",
         level_text="Generated-input search over remove-heavy sequences: the reference marks the removes whose target or ancestor is absent; applying P with the option must equal applying P without those removes and without the option (same outcome, same error class, same ordered document = the model's). Exploration only.",
         level_note="Trusted: harness/ref. Negative last tokens while negative indices are off, '-'/non-numeric tokens on arrays and remove of \"\" are outside the stated domain and excluded (counted).",
     ),
     "C14": dict(
-        pkg="c14", units=[rapid("TestProp", 45000, 200000)], assumptions=COMMON_ASSUME,
+        pkg="c14", units=[rapid("TestProp", 45000, 200000), fuzz("FuzzEnsure", 60)], assumptions=COMMON_ASSUME,
         technique="property-based testing (rapid): generated extension paths vs a reference ensure+add model, ordered comparison, independent pointer lookup, agreement with plain add",
         level_text="Generated-input search: an existing container path is extended by generated tokens (escaped names, indices, '-'); the output must equal the reference ensure+add result including member order (frame condition and 'nothing but path and padding' in one comparison), the value must be found at the path by an independent lookup, and the result must equal plain add's whenever plain add succeeds. Judged only in the property's clear domain. Exploration only.",
         level_note="Trusted: harness/ref ensure model. Excluded and counted: null/scalar on the path, names addressed into arrays, last index beyond an existing array, negative and non-canonical indices, '-' before the last token.",
     ),
     "C15": dict(
-        pkg="c15", units=[rapid("TestProp", 18000, 80000), rapid("TestPropWF", 18000, 80000)], assumptions=COMMON_ASSUME,
+        pkg="c15", units=[rapid("TestProp", 18000, 80000), rapid("TestPropWF", 18000, 80000), fuzz("FuzzWellFormed", 60)], assumptions=COMMON_ASSUME,
         technique="property-based testing (rapid): strict RFC 8259 recogniser + UTF-8 + value round trip on every output; metamorphic relations EscapeHTML on/off, ApplyIndent vs re-indented Apply (encoding/json.Indent differential), inserted passing tests",
         level_text="Generated-input search over documents whose names and strings hold the HTML-sensitive characters: every successful output of the five functions must be one RFC 8259 text in valid UTF-8 denoting the reference value; the on/off outputs must differ in spelling only, obey the two escaping clauses, ApplyIndent / ApplyIndentWithOptions must equal an independent re-indentation of Apply / ApplyWithOptions byte for byte under both settings, and inserted passing tests must not change a byte. Exploration only.",
         level_note="Trusted: harness/ref recogniser and canonical writer, encoding/json.Indent of the default toolchain (cross-checked by an independent re-indenter). The byte-identity clauses are asserted only for inputs in the encoder's own spelling, as the quantifier states.",
@@ -125,7 +125,7 @@ PROPS = {
         level_note="Trusted: harness/ref reader and the validator in c11 (written from the property statement). Duplicated members whose first and last occurrence disagree are ambiguous and excluded; the text null is outside the domain.",
     ),
     "C18": dict(
-        pkg="c18", units=[rapid("TestProp", 45000, 200000)], assumptions=COMMON_ASSUME + ["the legacy root package is staged from /repo's working tree as module github.com/evanphx/json-patch (it has no go.mod of its own)"],
+        pkg="c18", units=[rapid("TestProp", 45000, 200000), fuzz("FuzzLegacyApply", 60)], assumptions=COMMON_ASSUME + ["the legacy root package is staged from /repo's working tree as module github.com/evanphx/json-patch (it has no go.mod of its own)"],
         technique="property-based testing (rapid): the C01 generator and RFC 6902 reference evaluator against the staged legacy package, restricted to what v4 claims",
         level_text="Generated-input search against a staged copy of the root package: all-applicable patches must succeed with the RFC result up to member order and with number literals intact; a first failure that is a failed test, a remove/move of an absent location, an out-of-range or negative-while-off index must give an error and no document. Exploration only.",
         level_note="Trusted: harness/ref. Excluded (counted): root-replacing add, copy from \"\", test values whose strings need escaping or hold <,>,&, and first failures v4 does not claim to report (e.g. replace/copy of an absent member, which v4 accepts).",
